@@ -1,3 +1,4 @@
+import H2.Proofs.StreamSMRefine
 import H2.Proofs.StreamSM
 /-!
 # C08 — the server reacts to each frame as its stream's RFC 7540 state prescribes
@@ -101,5 +102,102 @@ example : (jrun Pos.fresh .idle demo).map (·.r) = [.process, .process, .dispatc
 example : (jrun Pos.fresh .idle [.frame (.data false false) ctx0]).map (·.r) = [.connErr .protocol] := by decide
 example : allowed .idle (.data false false) ctx0 (.connErr .protocol) = true ∧
           allowed .idle (.data false false) ctx0 .process = false := by decide
+
+end H2.Props.C08
+
+/-! ## appended section for `lean/H2/Props/C08.lean` (round r08)
+
+Needs this import at the head of `H2/Props/C08.lean`, next to `import H2.Proofs.StreamSM`:
+
+    import H2.Proofs.StreamSMRefine
+
+The lockstep comparison of `H2.Server.Lock.StreamSM.checkFrame` (abstract `StreamSM.react` beside the FULL server model
+`H2.Server.slStreamFrame`), as theorems — for the frames listed in each statement. `reactSL` is `StreamSM.react` after the
+read loop's own checks (`react_eq`); `absReaction` / `fullReaction` / `absPos` / `absFrame` are the adapter's own
+definitions. What is still only run in lockstep: header-bearing frames on a stream of the table (`HFspec` for HEADERS /
+CONTINUATION, i.e. `walkFrame` against `handleHeaderFrame`), frames that resume a stalled response, and the run-level
+invariant (see REPORT of round r08).
+-/
+namespace H2.Props.C08
+open H2.Server H2.Server.Lock H2.Server.Lock.Refine
+open H2.Frame (Frame)
+open H2 (Bytes)
+
+/-- **full model, stream not in the table** (idle, closed and remembered in the ring, reset by this side, below `lastID`,
+refused): for EVERY state `s` of the full model and every parsed frame with an odd stream id the table does not hold,
+unless the frame opens a stream, the reaction string of the abstract model equals the one read off the full model's
+outputs, and unless it is a connection error the abstract next place is the place of the id in the state after. No
+invariant is needed. -/
+theorem full_unknown_stream_refines (s : Srv) (fr : Frame) (hwf : FrWF fr) (hodd : fr.stream % 2 = 1)
+    (hl : lookup s fr.stream = none) (hu : (unknownStream { s := s } fr s.closing).2 = none) :
+    let rp := reactSL (absPos s fr.stream) (absFrame s fr) (absCtx s fr.stream (some fr))
+    absReaction rp.1 = fullReaction (slStreamFrame { s := s } fr).out fr.stream ∧
+    (isConn rp.1 = false → absPos (slStreamFrame { s := s } fr).s fr.stream = rp.2) :=
+  unknown_frame_refines (r := { s := s }) hl hwf hodd rfl _ (absCtx_refuse s fr.stream (some fr)) hu
+
+/-- **full model, stream in the table, frames without header fragment** (DATA, RST_STREAM, PRIORITY, WINDOW_UPDATE and the
+types the stream loop rejects): in a state whose table holds each stream object and each id once, for a stream that is
+not `reserved`, not in `resetByUs`, and has no response data waiting for window (`resume`), the reaction strings agree
+and the abstract next place is the place after — END_STREAM → dispatch, the content-length check, RST_STREAM → closed and
+remembered in the ring, the flow-control and body-size stream errors included. -/
+theorem full_known_stream_refines (s : Srv) (fr : Frame) (st : Strm) (hwf : FrWF fr) (hodd : fr.stream % 2 = 1)
+    (hl : lookup s fr.stream = some st)
+    (hun : (s.strms.map (·.uid)).Nodup) (hidn : (s.strms.map (·.id)).Nodup)
+    (hres : st.state ≠ .reserved) (hnr : resume st = false) (hnb : s.resetByUs.contains fr.stream = false)
+    (hcl : 0 ≤ st.contentLength)
+    (hb : (∃ c, fr.body = .rstStream c) ∨ (∃ d w, fr.body = .priority d w) ∨ (∃ i, fr.body = .windowUpdate i) ∨
+          (∃ es b, fr.body = .data es b)) :
+    let rp := reactSL (absPos s fr.stream) (absFrame s fr) (absCtx s fr.stream (some fr))
+    absReaction rp.1 = fullReaction (slStreamFrame { s := s } fr).out fr.stream ∧
+    (isConn rp.1 = false → absPos (slStreamFrame { s := s } fr).s fr.stream = rp.2) := by
+  have tb := TB.of_lookup (r := { s := s }) hl hun hidn
+  have htyp : fr.typ ≠ H2.Gen.c_FrameHeaders := by
+    rcases hb with ⟨c, e⟩ | ⟨d, w, e⟩ | ⟨i, e⟩ | ⟨es, b, e⟩ <;> (have := hwf; simp only [FrWF, e] at this) <;>
+      first | (rw [this]; decide) | (rw [this.1]; decide)
+  have hpre : headersPrelude { s := s } fr = ({ s := s }, true) := by
+    simp only [headersPrelude]; split
+    · rename_i h; exact absurd (by simpa using h) htyp
+    · rfl
+  have hisH : StreamSM.isHeaders (absFrame s fr) = false := by
+    rcases hb with ⟨c, e⟩ | ⟨d, w, e⟩ | ⟨i, e⟩ | ⟨es, b, e⟩ <;> simp [absFrame, e, StreamSM.isHeaders]
+  refine known_frame_refines (r := { s := s }) hl hun hidn hwf hodd hres rfl hnr hnb hpre _ (by simp [hisH])
+    (absCtx_isLast s fr.stream (some fr)) ?_
+  have hm : ∀ n : Nat, (st.contentLength.toNat != n) = (((n : Nat) : Int) != st.contentLength) := by
+    intro n; rw [Bool.eq_iff_iff]; simp only [bne_iff_ne, ne_eq]; omega
+  rcases hb with ⟨c, e⟩ | ⟨d, w, e⟩ | ⟨i, e⟩ | ⟨es, b, e⟩
+  · exact hf_simple tb fr hwf hres rfl (Or.inl ⟨c, e⟩) _ (by simp [absCtx, hl, walkFrame, headerPart, e, msgSt, clm, hm])
+  · exact hf_simple tb fr hwf hres rfl (Or.inr (Or.inl ⟨d, w, e⟩)) _ (by simp [absCtx, hl, walkFrame, headerPart, e, msgSt, clm, hm])
+  · exact hf_wu tb fr hwf hres rfl i e _ (by simp [absCtx, hl, walkFrame, headerPart, e, msgSt, clm, hm])
+  · exact hf_data tb fr hwf hres rfl es b e _ (by simp [absCtx, hl, walkFrame, headerPart, e, msgSt, clm, hm])
+
+/-- every frame the parser hands to the read loop satisfies `FrWF` -/
+theorem full_parsed_frames_wf (max : Nat) (b : Bytes) (fr : Frame) (n : Nat) (h : H2.Frame.readFrame max b = .ok fr n) : FrWF fr :=
+  readFrame_wf max b fr n h
+
+/-! ### non-vacuity: the hypotheses hold on concrete states, and the conclusions are the expected reactions -/
+
+/-- RST_STREAM on the idle stream 1 of a fresh connection -/
+def exRst : Frame := ⟨3, 0, 1, 4, .rstStream 8⟩
+
+example : FrWF exRst ∧ exRst.stream % 2 = 1 ∧ lookup ({} : Srv) exRst.stream = none ∧
+    (unknownStream { s := {} } exRst false).2 = none :=
+  ⟨(rfl : exRst.typ = H2.Gen.c_FrameResetStream), by decide, by decide +kernel, by decide +kernel⟩
+
+example : fullRC (slStreamFrame { s := {} } exRst).out 1 = .conn 1 := by decide +kernel
+
+/-- a connection with stream 1 open (request headers complete) -/
+def exStrm : Strm := { uid := 0, id := 1, window := 65535, state := .open, origType := 1, headersFinished := true,
+                        pMethod := true, pScheme := true, pPath := true, path := [47] }
+def exSrv : Srv := { strms := [exStrm], nextUid := 1, lastID := 1, openStreams := 1 }
+/-- DATA with END_STREAM on it: the request is dispatched -/
+def exData : Frame := ⟨0, 1, 1, 2, .data true [104, 105]⟩
+
+example : FrWF exData ∧ exData.stream % 2 = 1 ∧ lookup exSrv exData.stream = some exStrm ∧
+    (exSrv.strms.map (·.uid)).Nodup ∧ (exSrv.strms.map (·.id)).Nodup ∧ exStrm.state ≠ .reserved ∧ resume exStrm = false ∧
+    exSrv.resetByUs.contains exData.stream = false ∧ 0 ≤ exStrm.contentLength :=
+  ⟨⟨rfl, rfl⟩, by decide, rfl, by decide, by decide, by decide, by decide, by decide, by decide⟩
+
+example : fullRC (slStreamFrame { s := exSrv } exData).out 1 = .dispatch ∧
+    absPos (slStreamFrame { s := exSrv } exData).s 1 = .tab .halfClosed true true true := by decide +kernel
 
 end H2.Props.C08
